@@ -159,6 +159,13 @@ func NewReceiver(p2pHost host.Host, topicName string, options ...Option) (*Recei
 // filtering checks. Next also returns ErrClosed if the receiver is closed, or
 // the context error if the given context is canceled.
 func (r *Receiver) Next(ctx context.Context) (Announce, error) {
+	// A closed receiver says so, also when an announcement that nobody
+	// fetched is still queued.
+	select {
+	case <-r.done:
+		return Announce{}, ErrClosed
+	default:
+	}
 	select {
 	case <-ctx.Done():
 		return Announce{}, ctx.Err()
@@ -361,6 +368,12 @@ func (r *Receiver) handleAnnounce(ctx context.Context, amsg Announce, resend boo
 		}
 	}
 
+	// If Close came in the meantime, say so, also when the queue has room.
+	select {
+	case <-r.done:
+		return ErrClosed
+	default:
+	}
 	select {
 	case r.outChan <- amsg:
 	case <-r.done:
